@@ -697,7 +697,25 @@ pub fn graphemes_spans_via_chumsky(text: &str, shape: u8) -> Result<Vec<(usize, 
     let r = catch_unwind(AssertUnwindSafe(|| {
         let inp = Graphemes::new(text);
         let sp = |s: SimpleSpan<usize>| (s.start, s.end);
-        let res = if shape == 3 {
+        let res = if shape == 5 {
+            // after k clusters: ExactSizeInput::span_from(cursor..) must be the span of "everything that
+            // is left" — the very span that consuming the rest reports
+            let k = text.len() % 4;
+            any::<&Graphemes, E>()
+                .repeated()
+                .at_most(k)
+                .to_span()
+                .map(sp)
+                .then(custom::<_, &Graphemes, _, E>(|inp| {
+                    let c = inp.cursor();
+                    Ok(inp.span_from(&c..))
+                })
+                .map(sp))
+                .then(any::<&Graphemes, E>().repeated().to_span().map(sp))
+                .map(|((a, b), c)| vec![a, b, c])
+                .parse(inp)
+                .into_result()
+        } else if shape == 3 {
             let lit = |l: &'static str| just::<&'static str, &Graphemes, E>(l).to_span().map(sp);
             choice((lit("e"), lit("\r"), lit("a"), lit("\u{1F1E9}"), lit("\u{1F468}"), lit("z\u{308}"), lit("\r\n"), lit("0"), lit("\u{1100}"), lit("ab"), any::<&Graphemes, E>().to_span().map(sp)))
                 .repeated()
@@ -729,6 +747,22 @@ pub fn graphemes_check(text: &str, shape: u8) -> Option<(String, String)> {
         let want = graphemes_reference(text);
         let bounds: std::collections::BTreeSet<usize> = std::iter::once(0).chain(want.iter().map(|c| c.2)).collect();
         let exp = format!("spans that tile 0..{} and lie on the cluster boundaries {:?}", text.len(), bounds);
+        if shape == 5 {
+            let exp5 = "span_from(cursor..) == span of the rest of the input".to_string();
+            return match graphemes_spans_via_chumsky(text, shape) {
+                Err(e) => Some((exp5, e)),
+                Ok(spans) => {
+                    // [consumed prefix, span_from, rest]; an empty rest has an empty span at the end
+                    let (from, rest) = (spans[1], spans[2]);
+                    let ok = from.1 == text.len() && from.0 == spans[0].1.max(spans[0].0) && (rest == from || (rest.0 == rest.1 && from.0 == from.1));
+                    if ok || (text.is_empty() && from == (0, 0)) {
+                        None
+                    } else {
+                        Some((exp5, format!("prefix={:?} span_from={:?} rest={:?} (text is {} bytes)", spans[0], from, rest, text.len())))
+                    }
+                }
+            };
+        }
         return match graphemes_spans_via_chumsky(text, shape) {
             Err(e) => Some((exp, e)),
             Ok(spans) => {
@@ -1159,7 +1193,7 @@ impl Engine for SrcSim {
             let mut d = 77u64;
             for _ in 0..6 {
                 let text = gen_grapheme_text(&mut rng);
-                for shape in 0..5u8 {
+                for shape in 0..6u8 {
                     acc.inc("evaluations.replica_runs");
                     acc.inc("replica_runs.Graphemes");
                     d = fold(d, crate::prng::fold_bytes(shape as u64, text.as_bytes()));
